@@ -1,5 +1,6 @@
 import Skc.Lemmas.Layout
 import Skc.Lemmas.Greedy
+import Skc.Lemmas.Sbs
 
 /-! # C07 — seeded binary segmentation reports exactly the greedy above-threshold splits
 
@@ -27,6 +28,57 @@ theorem sbs_threshold_monotone {α : Type} [LinearOrder α] [Zero α]
     (scores : List α) :
     ∀ c ∈ greedyPicks ivs thr₂ fuel scores, c ∈ greedyPicks ivs thr₁ fuel scores :=
   fun _ hc => (greedyPicks_prefix ivs thr₁ thr₂ h fuel scores).subset hc
+
+/-- **C07, per-interval score and maximiser**: the reported score is the maximum, over the splits
+    leaving `m` samples on both sides, of the (column-summed) change score, and the reported
+    maximiser attains it; evaluation fails exactly when no split is admissible. -/
+theorem sbs_interval_argmax {α : Type} [LinearOrder α] [Zero α]
+    (cs : Nat → Nat → Nat → α) (m : Nat) (iv : Nat × Nat) :
+    (amoc cs m iv = none ↔ iv.2 < iv.1 + 2 * m) ∧
+    ∀ k v, amoc cs m iv = some (k, v) →
+      iv.1 + m ≤ k ∧ k + m ≤ iv.2 ∧ v = cs iv.1 k iv.2 ∧
+      ∀ t, iv.1 + m ≤ t → t + m ≤ iv.2 → cs iv.1 t iv.2 ≤ v :=
+  amoc_spec cs m iv
+
+/-- **C07, greedy selection**: every changepoint is supported by an interval scoring above the
+    threshold (whose maximiser it is); no above-threshold interval is left without a changepoint
+    inside it; no later pick's interval contains an earlier changepoint.  (`idx` are the picked
+    interval indices; the changepoints are their maximisers; the first pick is always a
+    highest-scoring remaining interval: `greedyGen_head_max`.) -/
+theorem sbs_greedy {α : Type} [LinearOrder α] [Zero α]
+    (trip : List (Nat × Nat × Nat)) (scores : List α) (thr : α) (hthr : 0 ≤ thr)
+    (hin : ∀ (i s e c : Nat), trip[i]? = some (s, e, c) → s ≤ c ∧ c < e)
+    (hlen : scores.length = trip.length) :
+    let idx := greedyGen (killCpt trip) thr trip.length scores
+    (∀ i ∈ idx, ∃ v, scores[i]? = some v ∧ thr < v) ∧
+    (∀ (j : Nat) (v : α) (s e c : Nat), scores[j]? = some v → thr < v → trip[j]? = some (s, e, c) →
+        ∃ i ∈ idx, s ≤ (trip.getD i (0, 0, 0)).2.2 ∧ (trip.getD i (0, 0, 0)).2.2 < e) ∧
+    idx.Pairwise (fun i i' => killCpt trip i i' = false) :=
+  sbs_greedy_sound trip scores thr hthr hin hlen
+
+/-- the pick of every round is a highest-scoring remaining interval, above the threshold -/
+theorem sbs_pick_is_max {α : Type} [LinearOrder α] [Zero α] (kill : Nat → Nat → Bool) (thr : α)
+    (fuel : Nat) (cur : List α) (i : Nat) (rest : List Nat)
+    (h : greedyGen kill thr (fuel + 1) cur = i :: rest) :
+    ∃ v, cur[i]? = some v ∧ thr < v ∧ ∀ x ∈ cur, x ≤ v :=
+  greedyGen_head_max kill thr fuel cur i rest h
+
+/-- **C04 for seeded binary segmentation**: two picked changepoints whose intervals are
+    "independent" (the later interval does not contain the earlier changepoint) are at least
+    `m` apart, given that each maximiser leaves `m` samples on both sides of its interval. -/
+theorem sbs_min_gap (trip : List (Nat × Nat × Nat)) (m i i' : Nat)
+    (hb : ∀ j, (trip.getD j (0, 0, 0)).1 + m ≤ (trip.getD j (0, 0, 0)).2.2 ∧
+        (trip.getD j (0, 0, 0)).2.2 + m ≤ (trip.getD j (0, 0, 0)).2.1)
+    (hk : killCpt trip i i' = false) :
+    (trip.getD i (0, 0, 0)).2.2 + m ≤ (trip.getD i' (0, 0, 0)).2.2 ∨
+    (trip.getD i' (0, 0, 0)).2.2 + m ≤ (trip.getD i (0, 0, 0)).2.2 := by
+  have h1 := hb i
+  have h2 := hb i'
+  simp only [killCpt, decide_eq_false_iff_not, not_and, not_le] at hk
+  by_cases hc : (trip.getD i' (0, 0, 0)).1 ≤ (trip.getD i (0, 0, 0)).2.2
+  · have := hk hc
+    right; omega
+  · left; omega
 
 /-- non-vacuity: an admissible schedule and its layout -/
 example : AdmissibleSchedule 10 4 8 [(4, 1), (7, 2)] := by
